@@ -11,14 +11,14 @@ theorem new_atomic (cap : Nat) (m : Mem) (h : (Rbuf.new cap m).1 = .errAlloc) :
 /-- the constructor fails exactly when one of its (at most two) allocator calls is refused -/
 theorem new_refused_iff (cap : Nat) (m : Mem) :
     (Rbuf.new cap m).1 = .errAlloc ↔ (m.alloc.1 = false ∨ m.alloc.2.alloc.1 = false) := by
-  unfold Rbuf.new; dsimp only
+  unfold Rbuf.new Rbuf.newT; dsimp only [Mem.allocT, Mem.freeT]
   cases h1 : m.alloc.1 <;> cases h2 : m.alloc.2.alloc.1 <;> simp
 
 /-- with an allocator that does not refuse the constructor succeeds -/
 theorem new_succeeds (cap : Nat) (m : Mem) (h : m.sched = []) : (Rbuf.new cap m).1 = .ok := by
   have a1 := Mem.alloc_nil m h
   have a2 := Mem.alloc_nil m.alloc.2 a1.2
-  unfold Rbuf.new; dsimp only
+  unfold Rbuf.new Rbuf.newT; dsimp only [Mem.allocT, Mem.freeT]
   simp [a1.1, a2.1]
 
 /-- enqueue/dequeue never call the allocator: the schedule is never consumed -/
